@@ -16,7 +16,10 @@ BOUNDS = ('one time step on a periodic mesh, all cell data symbolic (any real va
 OUTSIDE = ('MUSCL with rk2_heun/rk3ssp: by convexity of the SSP stages (C05 proves the Shu-Osher form with non-negative weights); for Burgers '
            'the later stages reuse the dt of the step start and their CFL premise follows from the maximum principle of the previous stage; '
            'any number of steps by induction; non-uniform meshes for MUSCL (excluded by the property); float round-off')
-ASSUMPTIONS = ['total variation is asserted directly for first order and minmod/superbee; for every limiter the local 3-point range '
+ASSUMPTIONS = ['inline vanleer/vanalbada: proved through a lemma chain - every value returned by the real limiter during the step is proved to lie in the '
+               'Sweby region (on the real terms), then the range obligations are proved with those values cut to variables constrained by that '
+               'region only; the uncut obligations are additionally searched for violations',
+               'total variation is asserted directly for first order and minmod/superbee; for every limiter the local 3-point range '
                'min(u_{i-1},u_i,u_{i+1}) <= u_i\' <= max(...) is asserted, which with conservation gives TVD by Harten\'s lemma (stated, not re-proved)']
 EXPLANATION = 'Assertions over the data after the real step: global range, local range and total variation.'
 
@@ -83,6 +86,15 @@ def harness(cfg, B):
         cflmax = Fraction(1)
     else:
         lim = _abstract_limiter(B) if cfg['limiter'] == 'abstract' else getattr(fd.xnum, cfg['limiter'])
+        limcalls = []
+        if cfg['limiter'] in ('vanleer', 'vanalbada'):
+            # the real smooth limiter, observed: (arguments, result) of every call are recorded for the lemma chain below
+            real_lim = lim
+
+            def lim(a, b):
+                r = real_lim(a, b)
+                limcalls.append((a, b, r))
+                return r
         num = fd.xnum.muscl(lim)
         cflmax = Fraction(1, 2)
     replayable = cfg.get('limiter') != 'abstract'
@@ -103,6 +115,35 @@ def harness(cfg, B):
     for j in range(1, n):
         lo, hi = np.minimum(lo, u[j]), np.maximum(hi, u[j])
     kw = dict(replayable=replayable)
+    if cfg['scheme'] == 'muscl' and limcalls and B.symbolic:
+        # lemma chain for the inline smooth limiters (their rational form defeats the direct query):
+        #   L1  every value returned by the real limiter in this step satisfies the Sweby contract of C12 (proved on the real terms)
+        #   L2  with the returned values CUT to variables that only satisfy that contract, the range obligations hold
+        # the uncut obligations below are then searched for violations only
+        from vt.sym import L as _L
+        outs, facts = [], []
+        for (a, b, r) in limcalls:
+            for j in range(len(r)):
+                X, Y, R = a[j], b[j], r[j]
+                if _L(R).op in ('const', 'var'):
+                    continue
+                outs.append(R)
+                fj = [(~((X > 0) & (Y > 0))) | ((R >= 0) & (R <= 2 * X) & (R <= 2 * Y)),
+                      (~((X < 0) & (Y < 0))) | ((R <= 0) & (R >= 2 * X) & (R >= 2 * Y)),
+                      (((X > 0) & (Y > 0)) | ((X < 0) & (Y < 0))) | (R == 0)]
+                facts += fj
+        for k, fct in enumerate(facts):
+            B.ob('chain:limiter-value-in-Sweby-region[%d]' % k, 'true', fct, meta={'lemma': True})
+        lo_c = cm.cut(B, [lo, hi] + [v[i] for i in range(n)], [B.array(outs)])
+        facts_c = cm.cut(B, facts, [B.array(outs)])
+        for i in range(n):
+            B.ob('chain:global-range-with-cut-limiter:min<=u\'[%d]' % i, 'le', lo_c[0], lo_c[2 + i], assume=facts_c, replayable=False, meta={'lemma': True})
+            B.ob('chain:global-range-with-cut-limiter:u\'[%d]<=max' % i, 'le', lo_c[2 + i], lo_c[1], assume=facts_c, replayable=False, meta={'lemma': True})
+            l3 = np.minimum(np.minimum(u[(i - 1) % n], u[i]), u[(i + 1) % n])
+            h3 = np.maximum(np.maximum(u[(i - 1) % n], u[i]), u[(i + 1) % n])
+            B.ob('chain:local-range-with-cut-limiter:min3<=u\'[%d]' % i, 'le', l3, lo_c[2 + i], assume=facts_c, replayable=False, meta={'lemma': True})
+            B.ob('chain:local-range-with-cut-limiter:u\'[%d]<=max3' % i, 'le', lo_c[2 + i], h3, assume=facts_c, replayable=False, meta={'lemma': True})
+        kw = dict(replayable=replayable, meta={'search_only': 'chain (limiter values in the Sweby region; range with the limiter values cut)'})
     for i in range(n):
         B.ob('global-range:min<=u\'[%d]' % i, 'le', lo, v[i], **kw)
         B.ob('global-range:u\'[%d]<=max' % i, 'le', v[i], hi, **kw)
